@@ -69,14 +69,15 @@ Proof. exact run_resend_ok. Qed.
 Print Assumptions C04_single_resend.
 
 (* "exactly one": a message without pre-handler (application, TestRequest, Heartbeat, ResendRequest) numbered
-   above the expected number, on a logged-on connection not yet awaiting a resend, makes the receiver write
+   above the expected number, on a connection whose Logon exchange is complete (state above LOGON_INITIAL_RECV:
+   since R8b such a message drops a connection still in the exchange) and not yet awaiting a resend, makes the receiver write
    exactly one ResendRequest(BeginSeqNo = next_num_in, EndSeqNo = 0), deliver nothing, keep next_num_in and wait
    in RESENDREQ_AWAITING (or drop) - provided the outbound side is intact (Out_inv of C05: no D20 damage,
    else the journal write of the request raises and the state is not advanced) and the send gate is open.
    [SequenceReset: D11; acceptor Logon: D26; Logout: the session ends] *)
 Theorem C04_gap_is_requested_partial : forall c m now w n,
   Out_inv w -> in_i64 (nout w) = true -> validate_integrity c m w = VOk -> get_int T34 m = inl n ->
-  nin w < n -> st w <> ST_AWAITING -> ST_NCE < st w -> gate_refuses (rr_msg w) w = false -> plain_kind m ->
+  nin w < n -> st w <> ST_AWAITING -> ST_LOGON_RECV < st w -> gate_refuses (rr_msg w) w = false -> plain_kind m ->
   exists rr, resends (re (process_message c m now w)) = [rr]
              /\ get T7 (mtags rr) = Some (z_to_dec (nin w)) /\ get T16 (mtags rr) = Some S_0
              /\ apps (re (process_message c m now w)) = []
